@@ -320,6 +320,27 @@ CLAIMED = {
         technique="Coq proof (induction over path segments with a covering-positions invariant; fold over the sequence of writes; exact dyadic float order for the sampling gate; explicit aliasing state for in-place redaction) + exhaustive-in-the-small and random model/implementation correspondence",
         design_ref="DESIGN.md 5/C19",
     ),
+    "C15": dict(
+        text="Theorems over the Gallina model of DefaultInMemoryCache (get/set/delete/clear with the clock readings as "
+             "arguments; every operation sequence, every capacity incl. 0 and negative, every TTL and clock; values of any "
+             "type; no bound): the store never exceeds max(0, capacity) entries and holds a key at most once; a hit returns "
+             "the value of the latest set of that key with no later set/delete of it and no clear, strictly before its "
+             "deadline (ttl None/0/negative = none); the LRU rank bound after a store and after a hit (an entry is lost to "
+             "capacity only when at least capacity distinct other keys were stored or found since; the count is of distinct "
+             "keys), tight; exactly the textbook LRU map when no entry can expire; the store is ordered by last touch; and "
+             "linearizability of every concurrent history (any number of threads) under the assumption that each method body "
+             "is one atomic step, with capacity and key uniqueness in every concurrent state. The correspondence run compares "
+             "the cache with the extracted model per operation (answer, size, ordered content with deadlines) on every "
+             "sequence of length 3 over a 24-letter alphabet x capacities 0..3 and seeded longer ones incl. the 128-entry purge "
+             "prefix, judges the clauses on the implementation's own history with an independent checker, and searches every "
+             "recorded 2-8 thread history for a linearisation that the extracted model accepts.",
+        note="Partial: atomicity of the method bodies is threading.RLock + the GIL (assumed by c15_linearizable; tied by the "
+             "recorded concurrent histories and an ast walk of the lock discipline, the latter reported in the evidence only). "
+             "Trusted: Coq kernel; model tied to the code by differential execution only; extraction; harness; time.monotonic "
+             "replaced by a scripted clock.",
+        technique="Coq proof (invariants by induction over operation sequences; rank-bound invariant for LRU; refinement to a textbook LRU map; linearisation built by induction over concurrent executions with atomic steps) + exhaustive-in-the-small model/implementation correspondence + linearisability search on recorded real-thread histories",
+        design_ref="DESIGN.md 5/C15",
+    ),
 }
 
 PENDING_REASON = ("check not built yet at this commit (work in progress; the design in DESIGN.md section 5 covers it and "
